@@ -428,3 +428,31 @@ Example hazard_class_nonvacuous :
 Proof.
   split; [vm_compute; reflexivity|]. vm_compute. split; intros [H|[]]; discriminate.
 Qed.
+
+(** ** branch isolation, generically: not only for the ledger / StateDB steps of the model above.
+    Whatever a thread's atomic step does — any Cosmos message of any module, failing or not, single or part of a
+    multi-message transaction — as long as it reads and writes ITS OWN branch only (for the implementation: the
+    multistore branch of its sdk.Context, which is what the generated inventories establish by excluding shared
+    mutable singleton state), the branch of thread 0 evolves under every schedule exactly as if thread 0 ran alone. *)
+Section GenericBranches.
+  Variable B : Type.                       (* a branch of state, including the thread's own program counter *)
+  Variable bstep : tid -> B -> B.          (* next atomic step of thread t on its own branch *)
+
+  Definition gstep (st : tid -> B) (t : tid) : tid -> B :=
+    fun k => if Nat.eqb t k then bstep t (st k) else st k.
+  Definition grun (sched : list tid) (st : tid -> B) : tid -> B := fold_left gstep sched st.
+
+  Lemma generic_branch_isolation_gen : forall sched a b,
+    a 0%nat = b 0%nat -> grun sched a 0%nat = grun (deliver_only sched) b 0%nat.
+  Proof.
+    induction sched as [|t rest IH]; intros a b H; [exact H|].
+    rewrite deliver_only_cons. unfold grun in *. simpl fold_left.
+    destruct t as [|t']; simpl Nat.eqb; cbn iota.
+    - simpl fold_left. apply IH. unfold gstep. simpl. rewrite H. reflexivity.
+    - apply IH. unfold gstep. simpl. exact H.
+  Qed.
+
+  Theorem generic_branch_isolation : forall sched st,
+    grun sched st 0%nat = grun (deliver_only sched) st 0%nat.
+  Proof. intros. apply generic_branch_isolation_gen. reflexivity. Qed.
+End GenericBranches.
